@@ -128,3 +128,71 @@ fn c13_q_header_cut_at_field_boundaries() {
     }
     kani::cover!(true);
 }
+
+/// stand-in for Chunk::read_all in the header-cut harness: what follows the frame header is cut away (an empty chunk
+/// list), so that the query holds only parse_frame's own header reads
+pub(crate) fn stub_read_all_none<R: Read>(_count: u32, _bytes_available: i64, _reader: &mut AseReader<R>) -> Result<Vec<Chunk>> {
+    Ok(Vec::new())
+}
+
+/// a frame header (symbolic fields, correct magic) cut after 3, 5, 6, 8, 10 or 15 of its 16 bytes: parse_frame's own reads
+/// report the missing bytes -- nothing missing is taken as zero. (The chunk reads that follow are decided by
+/// c13_q_chunk_cut; with the real Chunk::read_all in place these queries exceed 12 GB.)
+#[kani::proof]
+#[kani::unwind(8)]
+#[kani::stub(alloc::fmt::format, crate::vklib::empty_format)]
+#[kani::stub(std::hash::RandomState::new, crate::vklib::fixed_random_state)]
+#[kani::stub(crate::parse::Chunk::read_all, crate::parse::vk_c13::stub_read_all_none)]
+fn c13_q_frame_header_cut() {
+    const CUTS: [usize; 6] = [3, 5, 6, 8, 10, 15];
+    for k in 0..6 {
+        let mut h: [u8; 16] = kani::any();
+        h[4] = 0xFA;
+        h[5] = 0xF1;
+        let mut reader = AseReader::with(&h[..CUTS[k]]);
+        let mut info = ParseInfo::new(1, 100);
+        let r = parse_frame(&mut reader, 0, PixelFormat::Rgba, &mut info);
+        assert!(r.is_err(), "a frame header that is cut short does not parse");
+        core::mem::forget(r);
+        core::mem::forget(info);
+    }
+    kani::cover!(true);
+}
+
+/// one chunk (6-byte header + 4 payload bytes, symbolic) cut inside its size, its type and its payload: Chunk::read
+/// reports the missing bytes
+#[kani::proof]
+#[kani::unwind(6)]
+#[kani::stub(alloc::fmt::format, crate::vklib::empty_format)]
+fn c13_q_chunk_cut() {
+    const CUTS: [usize; 4] = [2, 5, 7, 9];
+    for k in 0..4 {
+        let cut = CUTS[k];
+        let mut b: [u8; 10] = kani::any();
+        b[0] = 10; // declared size 10
+        b[1] = 0;
+        b[2] = 0;
+        b[3] = 0;
+        b[4] = 0x06; // cel extra
+        b[5] = 0x20;
+        let mut budget: i64 = 1000;
+        let mut reader = AseReader::with(&b[..cut]);
+        let r = Chunk::read(&mut budget, &mut reader);
+        assert!(r.is_err(), "a chunk that is cut short is an error value");
+        core::mem::forget(r);
+    }
+    // uncut: ok
+    let mut b: [u8; 10] = kani::any();
+    b[0] = 10;
+    b[1] = 0;
+    b[2] = 0;
+    b[3] = 0;
+    b[4] = 0x06;
+    b[5] = 0x20;
+    let mut budget: i64 = 1000;
+    let mut reader = AseReader::with(&b[..]);
+    let r = Chunk::read(&mut budget, &mut reader);
+    assert!(r.is_ok() && budget == 990, "the complete chunk reads and is charged to the frame's byte budget");
+    kani::cover!(true);
+    core::mem::forget(r);
+}
